@@ -59,6 +59,23 @@ def make_case(tsl, rng, name):
     start = rng.choice([1, 1, 2, 4])
     blk = tsl.largest_common_contiguous_block(other, start)
     c["lcb"] = {"other": export_tsl(other), "start": start, "result": [{"b": s.bound, "s": s.step} for s in blk]}
+    # other tilings of the same shape (other tile bounds at a level, same steps): common block in both directions, and equality
+    c["lcbs"], c["eqs"] = [], []
+    for _ in range(2):
+        dims2 = []
+        for ts in tsl.tstrides:
+            st = list(ts.strides)
+            if len(st) >= 2 and rng.random() < 0.7:
+                j = rng.randrange(len(st) - 1)
+                b0, b1 = st[j].bound, st[j + 1].bound
+                nb0, nb1 = (b1, b0) if b0 != b1 else ((b0 * b1, 1) if rng.random() < 0.5 else (1, b0 * b1))
+                st[j], st[j + 1] = Stride(st[j].step, nb0), Stride(st[j + 1].step, nb1)
+            dims2.append(TiledStride(st))
+        o2 = TiledStridedLayout(dims2, offset=tsl.offset)
+        for a, b in ((tsl, o2), (o2, tsl)):
+            blk2 = a.largest_common_contiguous_block(b, start)
+            c["lcbs"].append({"self": export_tsl(a), "other": export_tsl(b), "start": start, "result": [{"b": s.bound, "s": s.step} for s in blk2]})
+        c["eqs"].append({"other": export_tsl(o2), "equal": 1 if (tsl == o2 and TiledStridedLayoutAttr(tsl) == TiledStridedLayoutAttr(o2)) or tsl == o2 else 0})
     return c
 
 
